@@ -1847,6 +1847,138 @@ theorem detPicks_spec (ε : Eps α) (inp : DieIn α) (fixed : List (Rect α)) :
   simp only [List.reverse_nil, List.nil_append] at e
   rw [e]; exact hacc
 
+/-! ### B.8 inside the separated band the tolerance does not matter -/
+
+/-- a strictly increasing list is determined by its set of elements. -/
+theorem eq_of_strict_of_mem_iff {l1 l2 : List α} (h1 : l1.Pairwise (· < ·)) (h2 : l2.Pairwise (· < ·))
+    (hm : ∀ v, v ∈ l1 ↔ v ∈ l2) : l1 = l2 := by
+  have n1 : l1.Nodup := h1.imp (fun h => ne_of_lt h)
+  have n2 : l2.Nodup := h2.imp (fun h => ne_of_lt h)
+  exact List.Perm.eq_of_pairwise (le := fun a b => a < b) (fun a b _ _ hab hba => absurd hab (not_lt.mpr (le_of_lt hba)))
+    h1 h2 ((List.perm_ext_iff_of_nodup n1 n2).mpr hm)
+
+/-- `gather_boundaries` gives the same coordinates for every tolerance below the separation of the values. -/
+theorem gatherList_insensitive (ε ε' εmax : α) (h0 : 0 ≤ ε) (h0' : 0 ≤ ε') (hle : ε ≤ εmax) (hle' : ε' ≤ εmax)
+    (vals : List α) (hsep : Sep εmax vals) :
+    dedupe ε none (sortAsc vals) = dedupe ε' none (sortAsc vals) := by
+  obtain ⟨m1, p1⟩ := gatherList_spec ε h0 vals (hsep.anti hle)
+  obtain ⟨m2, p2⟩ := gatherList_spec ε' h0' vals (hsep.anti hle')
+  exact eq_of_strict_of_mem_iff p1 p2 (fun v => by rw [m1 v, m2 v])
+
+theorem bestOf_fold_some (xs ys : List α) : ∀ (cands : List IRect) (acc : α × Option IRect), acc.2 ≠ none →
+    (cands.foldl (fun (acc : α × Option IRect) g =>
+        if acc.1 < gArea xs ys g then (gArea xs ys g, some g) else acc) acc).2 ≠ none := by
+  intro cands
+  induction cands with
+  | nil => intro acc h; exact h
+  | cons c t ih =>
+    intro acc h
+    simp only [List.foldl_cons]
+    split
+    · exact ih _ (by simp)
+    · exact ih _ h
+
+theorem bestOf_ne_none (xs ys : List α) (c : IRect) (cs : List IRect) (hc : -1 < gArea xs ys c) :
+    bestOf xs ys (c :: cs) ≠ none := by
+  unfold bestOf
+  simp only [List.foldl_cons, negOne_eq, hc, ↓reduceIte]
+  exact bestOf_fold_some xs ys cs _ (by simp)
+
+/-- with positive candidate areas the deterministic loop returns. -/
+theorem greedy_total (xs ys : List α) (nr nc : Nat) (hpos : ∀ g : IRect, g.wf nr nc = true → -1 < gArea xs ys g) :
+    ∀ (f : Nat) (m : Mat) (cands acc : List IRect), CandsOf nr nc m cands → cands.length < f →
+    ∃ out, greedy xs ys f m cands acc = .ok out := by
+  intro f
+  induction f with
+  | zero => intro m cands acc _ hlen; omega
+  | succ k ih =>
+    intro m cands acc hL hlen
+    cases cands with
+    | nil => exact ⟨acc.reverse, by simp [greedy]⟩
+    | cons c cs =>
+      simp only [greedy]
+      have hcw := ((hL c).mp List.mem_cons_self).1
+      cases hb : bestOf xs ys (c :: cs) with
+      | none => exact absurd hb (bestOf_ne_none xs ys c cs (hpos c hcw))
+      | some b =>
+        simp only
+        have hbm := bestOf_mem xs ys _ b hb
+        have hlt := cands_shrink nr nc m (c :: cs) b hL hbm
+        exact ih (occupy m b) _ (b :: acc) (candsOf_filter nr nc m (c :: cs) b hL) (by omega)
+
+theorem ValidIn.anti {ε εmax W H : α} {regs : List (Rect α)} (hv : ValidIn εmax W H regs) (h0 : 0 ≤ ε) (hle : ε ≤ εmax) :
+    ValidIn ε W H regs :=
+  ⟨hv.hW, hv.hH, h0, hv.pos, hv.inside, hv.disjoint, hv.sepX.anti hle, hv.sepY.anti hle⟩
+
+/-- the Hanan grid is the same for all distance tolerances below the separation of the boundary coordinates. -/
+theorem gridOf_insensitive (ε ε' : Eps α) (εmax : α) (inp : DieIn α) (fixed : List (Rect α))
+    (h0 : 0 ≤ ε.d) (h0' : 0 ≤ ε'.d) (hle : ε.d ≤ εmax) (hle' : ε'.d ≤ εmax)
+    (sx : Sep εmax (boundsX (occRects inp fixed ++ [dieRect inp.W inp.H])))
+    (sy : Sep εmax (boundsY (occRects inp fixed ++ [dieRect inp.W inp.H]))) :
+    gridOf ε inp fixed = gridOf ε' inp fixed := by
+  unfold gridOf gather
+  rw [gatherList_insensitive ε.d ε'.d εmax h0 h0' hle hle' _ sx, gatherList_insensitive ε.d ε'.d εmax h0 h0' hle hle' _ sy]
+
+theorem DieOut.ext' {o1 o2 : DieOut α} (h1 : o1.W = o2.W) (h2 : o1.H = o2.H) (h3 : o1.specialized = o2.specialized)
+    (h4 : o1.ground = o2.ground) (h5 : o1.blockages = o2.blockages) (h6 : o1.fixed = o2.fixed) : o1 = o2 := by
+  cases o1; cases o2; simp_all
+
+/-- same picks, two tolerance triples below the separation (same die tolerance): both runs return the SAME object. -/
+theorem dieCore_insensitive (ε ε' : Eps α) (εmax : α) (inp : DieIn α) (fixed : List (Rect α))
+    (hv : ValidIn εmax inp.W inp.H (occRects inp fixed))
+    (h0 : 0 ≤ ε.d) (h0' : 0 ≤ ε'.d) (hle : ε.d ≤ εmax) (hle' : ε'.d ≤ εmax) (ha : 0 ≤ ε.a) (ha' : 0 ≤ ε'.a)
+    (hd : 0 < ε.die) (hd' : 0 < ε'.die) (picks : List IRect)
+    (hacc : coverAccept ((gridOf ε inp fixed).2.length - 1) ((gridOf ε inp fixed).1.length - 1)
+      (occ (gridOf ε inp fixed).1 (gridOf ε inp fixed).2 (occRects inp fixed)) picks = true) :
+    coverAccept ((gridOf ε' inp fixed).2.length - 1) ((gridOf ε' inp fixed).1.length - 1)
+      (occ (gridOf ε' inp fixed).1 (gridOf ε' inp fixed).2 (occRects inp fixed)) picks = true ∧
+    ∃ out, dieCore ε inp fixed picks = .ok out ∧ dieCore ε' inp fixed picks = .ok out ∧
+      (∀ r ∈ out.all, 0 ≤ r.xmin ∧ r.xmax ≤ inp.W ∧ 0 ≤ r.ymin ∧ r.ymax ≤ inp.H) ∧
+      out.all.Pairwise (fun a b => a.areaOverlap b = 0) ∧ (out.all.map Rect.area).sum = inp.W * inp.H ∧
+      out.W = inp.W ∧ out.H = inp.H := by
+  have hg := gridOf_insensitive ε ε' εmax inp fixed h0 h0' hle hle' hv.sepX hv.sepY
+  have hacc' : coverAccept ((gridOf ε' inp fixed).2.length - 1) ((gridOf ε' inp fixed).1.length - 1)
+      (occ (gridOf ε' inp fixed).1 (gridOf ε' inp fixed).2 (occRects inp fixed)) picks = true := by rw [← hg]; exact hacc
+  obtain ⟨o1, c1, a1, a2, a3, a4, a5, a6, hin, hpw, hsum⟩ :=
+    dieCore_complete ε inp fixed (hv.anti h0 hle) ha hd picks hacc
+  obtain ⟨o2, c2, b1, b2, b3, b4, b5, b6, _, _, _⟩ :=
+    dieCore_complete ε' inp fixed (hv.anti h0' hle') ha' hd' picks hacc'
+  have : o2 = o1 := DieOut.ext' (by rw [a1, b1]) (by rw [a2, b2]) (by rw [a3, b3]) (by rw [a6, b6, hg]) (by rw [a4, b4])
+    (by rw [a5, b5])
+  rw [this] at c2
+  exact ⟨hacc', o1, c1, c2, hin, hpw, hsum, a1, a2⟩
+
+/-- on a valid die the deterministic cover returns, and it is the same for all tolerances below the separation. -/
+theorem detPicks_total (ε : Eps α) (inp : DieIn α) (fixed : List (Rect α))
+    (hv : ValidIn ε.d inp.W inp.H (occRects inp fixed)) : ∃ picks, detPicks ε inp fixed = .ok picks := by
+  obtain ⟨mx, my, _, _, _, _, _⟩ := grid_facts hv.toGrid
+  have hgrid : gather ε.d (occRects inp fixed ++ [dieRect inp.W inp.H]) = gridOf ε inp fixed := rfl
+  rw [hgrid] at mx my
+  unfold detPicks
+  simp only [ofArr_toArr]
+  obtain ⟨L, hL1, hL2⟩ := allFreeRects_spec (occ (gridOf ε inp fixed).1 (gridOf ε inp fixed).2 (occRects inp fixed))
+    ((gridOf ε inp fixed).2.length - 1) ((gridOf ε inp fixed).1.length - 1)
+  rw [hL1]
+  simp only
+  apply greedy_total (gridOf ε inp fixed).1 (gridOf ε inp fixed).2 _ _ ?_ (L.length + 1) _ L [] hL2 (by omega)
+  intro g hg
+  obtain ⟨w1, w2, w3, w4⟩ := (IRect.wf_iff g _ _).mp hg
+  have h1 := mx g.cmin (g.cmax + 1) (by omega) (by omega)
+  have h2 := my g.rmin (g.rmax + 1) (by omega) (by omega)
+  unfold gArea
+  have : 0 < (at' (gridOf ε inp fixed).2 (g.rmax + 1) - at' (gridOf ε inp fixed).2 g.rmin) *
+      (at' (gridOf ε inp fixed).1 (g.cmax + 1) - at' (gridOf ε inp fixed).1 g.cmin) := by
+    apply mul_pos <;> linarith
+  linarith
+
+theorem detPicks_insensitive (ε ε' : Eps α) (εmax : α) (inp : DieIn α) (fixed : List (Rect α))
+    (h0 : 0 ≤ ε.d) (h0' : 0 ≤ ε'.d) (hle : ε.d ≤ εmax) (hle' : ε'.d ≤ εmax)
+    (sx : Sep εmax (boundsX (occRects inp fixed ++ [dieRect inp.W inp.H])))
+    (sy : Sep εmax (boundsY (occRects inp fixed ++ [dieRect inp.W inp.H]))) :
+    detPicks ε inp fixed = detPicks ε' inp fixed := by
+  unfold detPicks
+  rw [gridOf_insensitive ε ε' εmax inp fixed h0 h0' hle hle' sx sy]
+
 end field
 
 end FV.Die
